@@ -204,6 +204,28 @@ def _rule_cases():
                             ps.FixedDurationTask(name=f"T{i}", duration=2).add_required_resource(w)
                     return mk(w)
                 cases.append((f"{cname}/{kind}/assigned={assigned}", thunk, not assigned))
+    # measurements and resource constraints on a resource with one, two or three tasks are well-formed
+    ms = {
+        "IndicatorResourceUtilization": (lambda w: ps.IndicatorResourceUtilization(resource=w), True),
+        "IndicatorNumberTasksAssigned": (lambda w: ps.IndicatorNumberTasksAssigned(resource=w), True),
+        "IndicatorResourceCost": (lambda w: ps.IndicatorResourceCost(list_of_resources=[w]), True),
+        "IndicatorResourceIdle": (lambda w: ps.IndicatorResourceIdle(resource=w), False),
+        "ObjectiveMinimizeFlowtimeSingleResource": (lambda w: ps.ObjectiveMinimizeFlowtimeSingleResource(resource=w), False),
+        "ObjectiveMaximizeResourceUtilization": (lambda w: ps.ObjectiveMaximizeResourceUtilization(resource=w), True),
+        "ObjectiveMinimizeResourceCost": (lambda w: ps.ObjectiveMinimizeResourceCost(list_of_resources=[w]), True),
+    }
+    ms.update({k: (v, k not in ("ResourceNonDelay", "ResourceTasksDistance")) for k, v in rc.items()})
+    for cname, (mk, cumulative_too) in ms.items():
+        for kind in ("worker", "cumulative") if cumulative_too else ("worker",):
+            for ntasks, tkind in ((1, "fixed"), (1, "zero"), (3, "fixed"), (2, "optional")):
+                def thunk(mk=mk, kind=kind, ntasks=ntasks, tkind=tkind):
+                    w = ps.Worker(name="W") if kind == "worker" else ps.CumulativeWorker(name="CW", size=2)
+                    for i in range(ntasks):
+                        t = ps.ZeroDurationTask(name=f"T{i}") if tkind == "zero" else ps.FixedDurationTask(name=f"T{i}", duration=2, optional=(tkind == "optional"))
+                        t.add_required_resource(w)
+                    return mk(w)
+                # documented rule of ResourceTasksDistance: "has to be assigned to at least 2 tasks"
+                cases.append((f"{cname}/{kind}/{ntasks}_{tkind}_tasks", thunk, cname == "ResourceTasksDistance" and ntasks < 2))
     # elements created while no problem exists
     makers = {
         "FixedDurationTask": lambda: ps.FixedDurationTask(name="T", duration=1),
